@@ -210,3 +210,63 @@ def max_abs(xs):
 
 def model_call(op: str, eps: float, args) -> str:
     return f"{op} " + common.wire_list([eps] + list(args))
+
+
+# ----------------------------------------------------------------------------- persistent-object probe
+
+def persistent_probe(ctx, prop_reads, names=GROUPS, algebra=False, dtypes=("float64", "float32"), n_updates=5):
+    """History probe shared by the Lie properties: ONE LieTensor object (no grad) is updated in place
+    (add_, copy_, item assignment, identity_ where implemented) and after every update each public read in
+    `prop_reads(name) -> {label: fn(obj) -> tensor}` must equal the same read on a fresh clone bit for bit.
+    A memoised / cached result that is not invalidated by in-place updates is a history bug that single-shot
+    sampling on fresh objects cannot see.  Deterministic (runs identically for every seed)."""
+    P = pp()
+    import random as _r
+    rng = _r.Random(20260925)
+    for name in names:
+        for dtype in dtypes:
+            eps = common.EPS[dtype]
+            D = dt(dtype)
+            tname = ALG[name] if algebra else name
+            ltp = getattr(P, tname + "_type")
+
+            def fresh(k):
+                rows = [(gen_algebra(rng, name, eps, big=False, thi=2.0, shi=0.5)[0] if algebra
+                         else gen_group(rng, name, eps, thi=2.0, shi=0.5)[0]) for _ in range(k)]
+                return P.LieTensor(torch.tensor(rows, dtype=torch.float64).to(D), ltype=ltp)
+            obj = fresh(3)
+            reads = prop_reads(name)
+            case = {"stream": "persistent", "type": tname, "dtype": dtype}
+            try:
+                for fn in reads.values():        # first reads (this is where a cache would be filled)
+                    fn(obj)
+                for u in range(n_updates):
+                    kind = ["add_", "copy_", "setitem", "add_", "identity_"][u % 5]
+                    if kind == "add_":
+                        a = torch.tensor([gen_algebra(rng, name, eps, big=False, thi=1.0, shi=0.3)[0] for _ in range(3)],
+                                         dtype=torch.float64).to(D)
+                        obj.add_(a)
+                    elif kind == "copy_":
+                        obj.copy_(fresh(3))
+                    elif kind == "setitem":
+                        obj[1] = fresh(1)[0]
+                    else:
+                        try:
+                            obj.identity_()
+                        except (NotImplementedError, AttributeError):
+                            obj.copy_(fresh(3))
+                    ref = obj.clone()
+                    for label, fn in reads.items():
+                        a1, b1 = fn(obj), fn(ref)
+                        a1 = a1.tensor() if hasattr(a1, "ltype") else a1
+                        b1 = b1.tensor() if hasattr(b1, "ltype") else b1
+                        ctx.note_case(("persistent", tname, dtype, label, u), True)
+                        ctx.count(f"persistent.{tname}")
+                        if a1.shape != b1.shape or not torch.equal(torch.nan_to_num(a1), torch.nan_to_num(b1)):
+                            err = float((a1.double() - b1.double()).abs().max()) if a1.shape == b1.shape else float("nan")
+                            ctx.fail(case | {"update": kind, "update_index": u, "read": label},
+                                     f"stale: {label} of a {tname} object after in-place update #{u} ({kind}) differs from the "
+                                     f"same call on a fresh clone by {err:.3e} ({dtype})")
+                            break
+            except Exception as e:
+                ctx.fail(case, f"raises: persistent-object probe on {tname} raised {type(e).__name__}: {str(e)[:120]}")
